@@ -1,4 +1,4 @@
-import GSProofs.Lemmas.RespLifeReach
+import GSProofs.Lemmas.RespLifeAccMgr
 /-!
 # C05 — Every incoming request is eventually fully retired by the responder
 
@@ -14,10 +14,14 @@ Property sentence → theorems
 * "afterwards the responder holds no state for it … and the peer's reported request states no longer
   list it": `retired_means_released` — in every reachable state a request that is not in the table
   (hence not in `PeerState`, which is computed from the table) is not protected.
+  `retired_holds_no_work` (hypothesis: `new` requests carry drained ids, `ReachableDrained`) adds that
+  such a request has no active topic in any task queue once its task worker has returned.
 * "exactly one outcome": FALSE at full strength on the faithful model, `one_outcome_counterexample`
   (cancelled AND reported to network-error listeners — known finding
-  `network-error-and-other-outcome`).  The full statement is kept below as a comment; what is proved
-  towards it is listed in STATUS.md.
+  `network-error-and-other-outcome`).  NO positive form is proved: "completed at most once, cancelled
+  at most once, never both" needs an invariant over the terminal statuses queued in message builders
+  and publisher queues; it is checked per schedule on the real code only (oracle classes
+  `completed-twice`, `cancelled-twice`, `outcome-multi`, `outcome-none`).
 * the two defects repaired while building this check are pinned by `fix_369d047_regression` and
   `fix_50602fc_regression`: the replay scripts now end with an empty table in the model.
 
@@ -76,6 +80,39 @@ theorem retired_means_released {c : Cfg} {s : State} (h : ReachableFresh c s) (p
   · obtain ⟨r, hr, hre⟩ := List.mem_map.1 hk
     exact hgone r hr ⟨congrArg Prod.fst hre, congrArg Prod.snd hre⟩
   · exact hpark hk
+
+/-- **"holds no state afterwards"** (the provable part).  Reachable with drained ids: a request that is
+    not in the table and whose task worker (if it ever had one) has returned is not protected, is not
+    reported by `PeerState`, and has no active topic in any peer's task queue; and a pending topic with
+    its id cannot exist next to a response of another peer or in another state than Queued
+    (`GS.C23.final_partial`).  NOT proved: that no pending topic and no allocator reservation of the
+    retired request is left (checked by the oracle classes `stats-nonzero` / `alloc-nonzero`). -/
+theorem retired_holds_no_work {c : Cfg} {s : State} (h : ReachableDrained c s) (p : Peer) (id : Id)
+    (hgone : lookup s id = none) (hpark : parkNew s.park ≠ some (p, id))
+    (hw : ∀ w ∈ s.workers, w.id = id → w.phase = .done) :
+    (p, id) ∉ s.prot ∧ ∀ q, id ∉ (getQ s q).active := by
+  constructor
+  · apply retired_means_released (reachableFresh_of_drained h) p id _ hpark
+    intro r hr ⟨_, hid⟩
+    have : lookup s id ≠ none := by
+      unfold lookup
+      cases hf : s.table.find? (·.id == id) with
+      | none =>
+        have := List.find?_eq_none.1 hf r hr
+        simp [hid] at this
+      | some r' => simp
+    exact this hgone
+  · intro q hm
+    have hi := (linv_reachable h).1
+    have hm' : id ∈ (acc s).act q := hm
+    obtain ⟨i, k, hk, hkd⟩ := (hi.actLive q id).1 hm'
+    have : (wcore s)[i]? = some (q, id, k) := hk
+    simp only [wcore, List.getElem?_map, Option.map_eq_some_iff] at this
+    obtain ⟨w, hwi, hwe⟩ := this
+    simp only [Prod.mk.injEq] at hwe
+    have hd := hw w (List.mem_of_getElem? hwi) hwe.2.1
+    rw [hd] at hwe
+    exact hkd hwe.2.2.symm
 
 /-- ids in the table are unique (fresh ids) -/
 theorem table_ids_nodup {c : Cfg} {s : State} (h : ReachableFresh c s) :
